@@ -345,7 +345,7 @@ impl Prop for C13 {
             "(a) every key history of length <= L (L=4 quick, 5 thorough) over a {}-symbol alphabet (vowels, signs, consonants, hasanta, chandrabindu, anusvara, ZWNJ, digit, \
              punctuation, ro-fola, zo-fola, reph) under the 16 settings of auto-vowel/auto-chandra/traditional/old-vowel-order, followed by the reph key with old-style reph on: \
              conservation on every text, placement where the syllable grammar accepts the text; the same histories with the option off (plain append), strided; \
-             (b) all words of <= 2 (quick) / 3 (thorough, strided) syllables generated from the grammar; (c) every Bengali-block character the synthetic layout has a key for (all 36 consonants, all signs, all vowels, marks) in 2-8 positions of the final syllable under the 16 settings; (d) the option switched on and off by update_engine (fresh or reused configuration object) under a live idle context, 20 rounds x 5 texts. distinct_nontrivial = distinct texts whose placement was judged.",
+             (b) all words of <= 2 (quick) / 3 (thorough, strided) syllables generated from the grammar; (c) every Bengali-block character the synthetic layout has a key for (all 36 consonants, all signs, all vowels, marks) in 2-8 positions of the final syllable under the 16 settings; (d) the option switched on and off by update_engine (fresh or reused configuration object) under a live idle context, 20 rounds x 5 texts; (e) 7 texts x 4 helper settings x old-style reph on/off with options the statement does not mention switched on (ANSI, smart quotes, English, number pad, phonetic suggestions, alone and combined). distinct_nontrivial = distinct texts whose placement was judged.",
             ALPHABET.len()
         )
     }
